@@ -475,7 +475,62 @@ def g_config(rng, n, ctx):
     return out
 
 
+def g_handshake(rng, n, ctx):
+    """CommHandler._devinfo_get (common info, padding reconfiguration, drop_all, channel info with
+    retries) with scripted frame queues: good answers, time-outs, wrong frames, malformed payloads."""
+    from nxslib.comm import CommHandler
+    from nxslib.proto.parse import Parser
+    from nxslib.proto.parserecv import ParseRecv
+    from nxslib.proto.iframe import DParseFrame, EParseId
+    out = []
+    pr = ParseRecv(RecCb())
+    sf = ctx.sf
+    for _ in range(n):
+        k = rng.randrange(0, 4)
+        dev = mkdev(rng, k, rng.choice([3, 1, 0]))
+        rxpad = rng.choice([0, 0, 4, 16])
+        items = []
+        r = rng.random()
+        if r < 0.75:
+            items.append(DParseFrame(fid=EParseId.CMNINFO, data=bytes([k, dev.data.flags, rxpad])))
+        elif r < 0.85:
+            items.append(None)
+        elif r < 0.93:
+            items.append(DParseFrame(fid=EParseId.ACK, data=bytes(4)))
+        else:
+            items.append(DParseFrame(fid=EParseId.CMNINFO, data=bytes([k])))      # malformed
+        items += [None] * rng.choice([4, 4, 4, 3, 5])                                 # what drop_all finds
+        for ch in range(k):
+            for _try in range(rng.choice([0, 0, 0, 1, 2, 7])):
+                items.append(rng.choice([None, DParseFrame(fid=EParseId.ACK, data=bytes(4))]))
+            c = dev.channel_get(ch)
+            frm = sf.frame_decode(pr.frame_chinfo_encode(c))
+            if rng.random() < 0.08:
+                frm = DParseFrame(fid=EParseId.CHINFO, data=frm.data[:3])              # malformed
+            items.append(frm)
+        sitems = [None] * rng.choice([4, 4, 6])
+
+        def build():
+            c = CommHandler(prelude_py.LogIntf(), Parser())
+            c._q = prelude_py.ScriptQueue(list(items))
+            c._q_stream = prelude_py.ScriptQueue(list(sitems))
+            return c
+
+        def run():
+            r = prelude_py.devinfo_run(build())
+            if r[0] is not None:
+                r[0] = nolock(r[0])
+            return r
+
+        c0 = build()
+        csx = pyl.RawSx("(o CommHandler (_started F) (_intf %s) (_parse %s) (_dev N) (_q %s) (_q_stream %s))" % (
+            pyl.sx(c0._intf), ctx.pa_sx.text, pyl.sx(c0._q), pyl.sx(c0._q_stream)))
+        out.append((pyl.fn_cmd("devinfo_run", [csx], fuel=120), pyl.impl_result(run), "_devinfo_get"))
+    return out
+
+
 GROUPS = {
+    "handshake": g_handshake,
     "config": g_config,
     "reassembly": g_reassembly,
     "pad": g_pad,
